@@ -128,6 +128,7 @@ PROPS['C13'] = {
     'trusted': _KX_TRUST + ['SocketAddr equality is (ip, port); flowinfo/scope_id of IPv6 socket addresses are not carried by the wire format and are outside the property'],
 }
 PROPS['C16'] = {
+    'technique': 'contract-based deductive verification: Verus contract of Message::check_attribute_types against the RFC 8489 s6.3.1 verdict (iterator chains replaced by their defining loops, rule R11), response constructors, writers, build() and the builder-to-parser theorem; Kani complete harnesses for the classification and the SOFTWARE literal; bounded stand-in as cross-check',
     'level': 'proof',
     'vx': [{'unit': 'responses', 'functions': ['unknown_attributes', 'bad_request', 'builder_error', 'builder_success', ":: builder", ':: class', ':: method', ':: has_class', 'from_class_method', 'to_bits',
                                              'lemma_type_roundtrip', 'lemma_method_idem', 'lemma_literals', 'ErrorCode :: new', 'UnknownAttributes :: new', 'add_attribute', "MessageBuilder<'a> :: into_owned", 'get_type', 'transaction_id', 'theorem_unsealed_builder_parses', 'theorem_builder_wellformed', 'lemma_unsealed_ok', 'lemma_blayout_tail_ok', 'lemma_holds_push', 'lemma_holds_congruent',
@@ -148,18 +149,21 @@ PROPS['C16'] = {
     'trusted': _KX_TRUST + ['mirror impls of AttributeWrite for Software / ErrorCode / UnknownAttributes in unit builder (value functions as proved in units writers / attrs)', 'smallvec::smallvec![] stand-in (empty list)'],
 }
 PROPS['C08'] = {
-    'level': 'exploration',
+    'technique': 'contract-based deductive verification: Verus contracts on 15 typed decoders (values of any length), all encoders / raw conversions / constructors (rules R13, R14) and decode-encode round-trip theorems; Kani complete harnesses for the fixed-size types; bounded stand-in as cross-check',
+    'level': 'proof',
     'vx': [{'unit': 'attrs'}, {'unit': 'integrity', 'functions': ['try_from', 'check_type_and_len', 'hmac']}, {'unit': 'writers'}, {'unit': 'writers_lists'}],
     'kx': _ATTR_K,
     'bx': ['c08'],
-    'rule': 'Kani complete harnesses for the ten fixed-size attribute types (symbolic type code, 0..=40 symbolic value bytes); BX for the nine variable-length types.',
+    'rule': 'Verus verification conditions of units attrs / writers / writers_lists (14 + 1 typed decoders, encoders, constructors, round-trip theorems, values of any length); Kani complete harnesses for the ten fixed-size attribute types (symbolic type code, 0..=40 symbolic value bytes); BX as bounded cross-check.',
     'proved': ['PRIORITY, USE-CANDIDATE, ICE-CONTROLLED, ICE-CONTROLLING, FINGERPRINT, MESSAGE-INTEGRITY, USERHASH, XOR-MAPPED-ADDRESS, ALTERNATE-SERVER, PASSWORD-ALGORITHM: decode Ok <=> RFC type code and RFC value encoding; other type => WrongAttributeImplementation; getters = encoded fields; encode = RFC layout; decode(encode(v)) = v; re-encode stable',
                'ERROR-CODE class/number arithmetic on all 65536 byte pairs; ErrorCode::new accepts exactly 300..=699', 'check_len for all lengths and range shapes',
                '(Verus, unit attrs, value strings of ANY length) USERNAME / REALM / NONCE / SOFTWARE / ALTERNATE-DOMAIN: accepted <=> type code, length limit (513 / 763 / none), valid UTF-8; the text encodes to exactly the value bytes. ERROR-CODE: accepted <=> 4..=767 bytes, class 3..6, number <= 99, UTF-8 reason; code and reason exposed. PASSWORD-ALGORITHM(S): accepted <=> positive multiple of 4, every entry algorithm 1|2 with empty parameters; list exposed in order. PRIORITY, USE-CANDIDATE, ICE-CONTROLLED/-CONTROLLING, USERHASH, MESSAGE-INTEGRITY(-SHA256) also in Verus; wrong type => WrongAttributeImplementation',
                '(Verus, unit writers) ERROR-CODE encodes as 00 00 class=code/100 number=code%100 + UTF-8 reason; UNKNOWN-ATTRIBUTES as the listed types, 16 bits big-endian, in order (list of ANY length); PASSWORD-ALGORITHMS as (algorithm, 0) entries in order (list of ANY length); length() of the three under the no-overflow type invariant len_ok',
                '(Verus, unit attrs, spec level over the two contracts) decode(encode(v)) = v: theorem_text_roundtrip for the five text attributes (the raw form of every in-limit text satisfies the decoder acceptance condition, and any result the decoder may return for it is the original text - UTF-8 encoding is injective), theorem_error_code_roundtrip for ERROR-CODE (codes 300..=699, reasons up to 763 bytes), theorem_u32_roundtrip / theorem_u64_roundtrip (unit writers) for PRIORITY and ICE-CONTROLLED/-CONTROLLING, theorem_password_algorithms_roundtrip + lemma_algos_entry (the written list satisfies the decoder acceptance condition and its k-th wire entry names the k-th algorithm); getters of every Verus-decoded type return the decoded field',
                '(Verus) encode side within reach: RawAttribute::new; USERNAME/REALM/NONCE/SOFTWARE get_type, length() == UTF-8 byte length, to_raw() carries the type code and exactly the UTF-8 bytes, getters return the text'],
-    'bounded': ['(in-place writers of 15 types + raw attributes and to_raw of the 8 variable-length types are proved in units writers / attrs, see C12) constructors X::new(&str) (vstd specifies str::len only for ASCII): BX; (the UNKNOWN-ATTRIBUTES decoder is PROVED since the third session: unit writers_lists, rule R13 + trusted ChunksExact specification) formerly: UNKNOWN-ATTRIBUTES decoder (chunks_exact iterator): Kani bounded (values of 0..=8 bytes) + BX, all lengths 0..=800 with ASCII / multi-byte UTF-8 / invalid UTF-8 fillers'],
+    'proved_extra': ['(unit writers_lists, rule R13 + trusted ChunksExact specification) UNKNOWN-ATTRIBUTES decoder: accepted <=> type 0x000A and an even number of value bytes; types_bytes(decoded list) == value bytes (re-encoding is stable); theorem_unknown_attributes_roundtrip: the encoding determines the list, so decode(encode(l)) == l',
+                     '(unit attrs, rule R14: `s.len()` of a &str replaced by its definition `s.as_bytes().len()`) constructors Username::new (513), Realm::new / Nonce::new / Software::new (763): Ok <=> the UTF-8 encoding of the text has at most that many bytes, the text is stored unchanged, otherwise TooLarge with the limit and the actual size; AlternateDomain::new stores the text'],
+    'bounded': ['BX: all lengths 0..=800 with ASCII / multi-byte UTF-8 / invalid UTF-8 fillers for every variable-length type, Kani bounded harness for UNKNOWN-ATTRIBUTES values of 0..=8 bytes (cross-checks of the trusted ChunksExact / String / str specifications; witness finders)', 'not judged by any engine (RFC text ambiguous): PASSWORD-ALGORITHM value lengths 8, 12, .. whose tail the decoder ignores'],
     'trusted': _KX_TRUST,
 }
 PROPS['C12'] = {
@@ -187,6 +191,7 @@ _AGENT_TRUST = ['BTreeMap::values_mut / ValuesMut::next (shims/btree_values_mut.
                 'DataSlice::to_owned copies the bytes (external_body: Box<[u8]>::from(&[u8]) has no vstd spec); tracing macros dropped (R1)']
 _AGENT_FNS_ALL = None
 PROPS['C05'] = {
+    'technique': 'contract-based deductive verification: Verus whole-view postconditions on every public StunAgent / StunRequestMut operation incl. StunAgent::poll (for-loop replaced by its definition, rule R13, over trusted BTreeMap::values_mut axioms), representation invariant, exactly-once theorem by induction over the postconditions; bounded stand-in as cross-check',
     'level': 'proof',
     'vx': [{'unit': 'agent'}],
     'kx': ['k06_request_poll'],
@@ -202,6 +207,7 @@ PROPS['C05'] = {
     'trusted': _AGENT_TRUST + _KX_TRUST,
 }
 PROPS['C06'] = {
+    'technique': 'contract-based deductive verification: Verus contracts on StunRequestState::{new,poll}, StunRequestMut::{configure_timeout (rule R11), cancel_retransmissions}, StunAgent::poll (rule R13) with the schedule as abstract state; lemmas for the default schedule numbers and the WaitUntil law; Kani cross-check of the time axioms (thorough); bounded stand-in as cross-check',
     'level': 'proof',
     'vx': [{'unit': 'agent', 'functions': ['StunRequestState :: poll', 'StunRequestState :: new', 'cancel_retransmissions', 'impl StunAgent :: send', 'mut_request_state', 'theorem_default_schedule_numbers', 'configure_timeout', 'lemma_pow2_le', 'lemma_pow2_8', 'lemma_mul_bound', 'lemma_geo_step', 'impl StunAgent :: poll', 'lemma_wait_until_law', 'into_owned']}],
     'kx': ['k06_request_poll'],
@@ -241,6 +247,7 @@ PROPS['C15'] = {
     'trusted': _AGENT_TRUST,
 }
 PROPS['C18'] = {
+    'technique': 'contract-based deductive verification: Verus contracts (bytes captured once, frame conditions on the 5-tuple, StunAgent::poll forwards the Transmit of an outstanding transaction unchanged: rule R13); bounded stand-in as cross-check',
     'level': 'proof',
     'vx': [{'unit': 'agent', 'functions': ['StunRequestState :: new', 'StunRequestState :: poll', 'impl StunAgent :: send', 'send_data', 'Transmit', 'peer_address', 'request_state', 'into_owned', 'to_owned', 'deref', 'impl StunAgent :: poll']}],
     'kx': ['k06_request_poll'],
@@ -271,7 +278,7 @@ PROPS['C03'] = {
            {'unit': 'builder', 'functions': ['write_into', 'into_owned', 'to_owned', 'add_fingerprint_unchecked', 'add_message_integrity_unchecked', 'integrity_bytes_from_message', 'theorem_sealed_fingerprint', 'theorem_sealed_sha1', 'theorem_sealed_sha256', 'lemma_last_tlv', 'lemma_layout_push', 'lemma_layout_split', 'lemma_write_step', 'lemma_write_room', ':: from', ':: new', 'theorem_builder_wellformed', 'theorem_unsealed_builder_parses', 'theorem_fingerprinted_builder_parses', 'theorem_guarded_builder_parses', 'theorem_guarded_builder_exposes_all', 'lemma_all_exposed', 'lemma_offsets_describe', 'lemma_all_offsets_len', 'lemma_layout_head', 'lemma_ordered_blist', 'lemma_ordered_push', 'lemma_ordered_ext', 'lemma_blayout_tail_ok', 'lemma_blist_push', 'lemma_unsealed_ok', 'lemma_flags_unsealed', 'lemma_layout_mod4']}],
     'kx': ['k03_build_small'],
     'bx': ['c03'],
-    'technique': 'Verus: spec-level round-trip theorem over the verified parser/writer contracts; bounded stand-in (execution of the real MessageBuilder against an independent serialiser + reference decoder) for the builder itself',
+    'technique': 'contract-based deductive verification: Verus contracts on the real MessageBuilder (write_into, byte_len, build, guards, sealing workers, into_owned; iterator adaptors replaced by their defining loops, rule R11) and on every attribute writer, composition theorems connecting the builder bytes to the verified parser contract; Kani for four fixed-size writers; bounded stand-in (execution against an independent serialiser + reference decoder) for end-to-end typed equality and clone()',
     'rule': 'see engines.bx[0].rule',
     'proved': ['(unit layout, spec level) theorem_layout_wellformed: header + concatenation of padded TLVs of any attribute list obeying the ordering rules (with FINGERPRINT values given by the CRC spec function) within the 16-bit length field is a well-formed message: length a multiple of four, header length field = length - 20, accepted by the verified parser contract (wf_message); lemma_layout_tail_ok for every tail',
                '(unit writers) every attribute writer used by the builder produces exactly tlv_bytes(type, value) (15 typed + raw in Verus, 4 in Kani; see C12)',
@@ -329,7 +336,7 @@ LEVEL_TEXT = {
  'C05': "Proof: whole-view postconditions of send / handle_stun / take_outstanding_request / request_transaction / cancel / cancel_retransmissions / configure_timeout / StunRequestState::poll and - since the third session - StunAgent::poll (its `for .. in values_mut()` loop replaced by its definition, rule R13, over trusted axioms for BTreeMap::values_mut) are proved by Verus for any number of outstanding transactions: a completion is reported only for an outstanding transaction with that verdict and removes exactly it; the exactly-once theorem is an induction over these postconditions. The bounded stand-in (exhaustive small-scope histories against an abstract agent) remains as cross-check of the trusted iterator axioms and witness finder.",
  'C06': "Proof: the per-request schedule (StunRequestState::new defaults and poll for schedules of any length and all instants) is proved by Verus; configure_timeout is proved as well for the property's configuration range (rule R11 replaces `(0..n).map(..).collect()` / `.fold(..)` by their defining loops; Duration arithmetic through trusted axioms): exactly `retransmits` entries initial_rto*2^i, the TCP sum, nothing else changed. The agent-level poll is proved too (rule R13 over trusted BTreeMap::values_mut axioms): WaitUntil(t) iff every outstanding transaction waits, t the earliest due instant; lemma_wait_until_law gives 'earlier: same t, no event; at t: an event'. Exhaustive small-scope and random histories (early/exact/late polls at microsecond resolution) remain as bounded cross-check.",
  'C07': "Proof: handle_stun's postcondition (delivered => outstanding and, if the request was sealed, remote credentials set and validate_integrity Ok; otherwise Drop with the whole abstract state unchanged) and request_had_credentials <=> builder has an integrity attribute are verified by Verus for all inputs; validate_integrity itself is C04. End-to-end with real HMACs is bounded.",
- 'C08': "Exploration: decode side proved - 14 typed decoders in Verus for value strings of ANY length (UTF-8 via vstd::utf8), 5 in Kani (complete); encode side proved for to_raw/length of the string types and the in-place writers of 15 types (C12). The UNKNOWN-ATTRIBUTES decoder is proved too since the third session (rule R13 on `for .. in chunks_exact(2)` over a trusted ChunksExact specification; theorem_unknown_attributes_roundtrip). Still bounded only: the &str constructors (vstd specifies str::len only for ASCII) - hence exploration.",
+ 'C08': "Proof: decode side proved - 14 typed decoders in Verus for value strings of ANY length (UTF-8 via vstd::utf8), 5 in Kani (complete); encode side proved for to_raw/length of the string types and the in-place writers of 15 types (C12). The UNKNOWN-ATTRIBUTES decoder is proved too since the third session (rule R13 on `for .. in chunks_exact(2)` over a trusted ChunksExact specification; theorem_unknown_attributes_roundtrip). The &str constructors are proved as well (rule R14: str::len replaced by its definition as_bytes().len(), which vstd specifies as the UTF-8 encoding). Nothing the statement needs rests on the bounded stand-in any more; it stays registered as cross-check.",
  'C09': "Proof: an accepted buffer with a FINGERPRINT at offset o satisfies value == crc32(bytes[..o] with length field o+8-20) ^ 0x5354554e and o+8 == len (clause fp_ok of wf_message, verified for all buffers); XOR constant by Kani for all 2^32 values; the builder side (add_fingerprint appends crc32 of build() with the length field + 8, xor the constant; the sealed serialisation satisfies fp_ok and is accepted by the parser) is proved, build() included (rule R11). That Fingerprint::compute is CRC-32/ISO-HDLC and the corruption sweeps are bounded.",
  'C10': "Proof: the iterator is verified to yield exactly the exposure rule of the statement on every accepted message; the 'hence' clauses (non-sealing exposed attributes lie before the end of the first integrity attribute; prefix stability) are spec-level lemmas; validate_integrity checks an exposed attribute over that prefix (C04). The lookups raw_attribute / has_attribute / attribute::<A>() are proved to answer from that same exposed stream (rule R11: find / any replaced by their defining loops), so nothing hidden is reachable through them either.",
  'C11': "Exploration: the four guard functions of the real MessageBuilder are verified by Verus against the ordering rules of the statement (refused exactly when ..., refused => builder unchanged, accepted => appended), including the two query helpers has_attribute / has_any_attribute and build() (iterator adaptors replaced by their defining loops, rule R11); assumed: the hmac/crc crates and the smallvec stand-in. clone() (derived; Verus gives a derived Clone of a non-Copy type no specification) and the whole-sequence statement are decided by exhaustive operation sequences up to length 5/6 over the sealing alphabet plus random programs on the real builder - hence exploration. That every guarded operation keeps the ordering grammar, and that a builder obeying it serialises to a message the parser accepts, is proved (ord(), theorem_guarded_builder_parses).",
